@@ -3,7 +3,7 @@ from fractions import Fraction
 from .. import core, epflow, gen, metacheck, oracles
 
 THEOREMS = ["C11_energy", "C11_steps_scale", "C11_step_projections", "C11_totals_scale", "C11_carrier_scale",
-            "C11_ratios_unchanged", "C11_area", "C11_normalize_scale"]
+            "C11_ratios_unchanged", "C11_area", "C11_normalize_scale", "C11_energy_any_values"]
 KAPPAS_EXACT = [Fraction(1, 64), Fraction(1, 4), Fraction(2), Fraction(16), Fraction(1024)]
 KAPPAS_APPROX = [Fraction(1, 10), Fraction(3), Fraction(1000)]
 
